@@ -39,6 +39,9 @@ func genC03(seed uint64, tier string) *Plan {
 	p.SK["router"] = []string{"gossipsub", "gossipsub", "floodsub", "randomsub"}[r.intn(4)]
 	p.SK["sign"] = []string{"strict", "strictnosign", "laxsign", "laxnosign"}[r.intn(4)]
 	p.SK["author"] = []string{"default", "custom", "perpublish", "none"}[r.intn(4)]
+	if r.chance(0.3) {
+		p.SK["sign_via"] = "legacy" // WithMessageSigning / WithStrictSignatureVerification instead of WithMessageSignaturePolicy
+	}
 	p.Knobs["content_id"] = float64(b2i(p.SK["author"] == "none" || p.SK["sign"] == "strictnosign" || p.SK["sign"] == "laxnosign" || r.chance(0.2)))
 	p.Knobs["ntopics"] = 2
 	p.Knobs["hb_ms"] = 1000
@@ -50,6 +53,13 @@ func genC03(seed uint64, tier string) *Plan {
 		p.Knobs["topic_val_all"] = 1
 		p.Knobs["v3_inline"] = float64(r.intn(2))
 		p.Knobs["p_park"] = []float64{0, 0.5}[r.intn(2)]
+		if r.chance(0.4) {
+			// back-pressure: one worker held by an inline validator, a validation queue of 1..2
+			p.Knobs["v3_inline"] = 1
+			p.Knobs["workers"] = 1
+			p.Knobs["p_park"] = []float64{0.5, 0.9}[r.intn(2)]
+			p.Knobs["val_queue"] = float64(r.rng(1, 2))
+		}
 	}
 	genDegrees(r, p, 4)
 	add := func(op string, a ...int64) { p.Items = append(p.Items, Item{Op: op, A: a}) }
@@ -96,7 +106,8 @@ func genC03(seed uint64, tier string) *Plan {
 		case x < 80:
 			add("node-pub", int64(r.intn(2)), int64(r.rng(8, 60)))
 		case x < 86:
-			add("c03pubkey", int64(r.intn(2)), int64(r.intn(3)))
+			// [topic, key kind, pairing: 0 = key and peer ID belong together, 1..2 = the peer ID of another identity]
+			add("c03pubkey", int64(r.intn(2)), int64(r.intn(3)), int64([]int{0, 0, 1, 2}[r.intn(4)]))
 		case x < 92:
 			add("release", int64(r.intn(4)))
 		default:
@@ -514,6 +525,22 @@ func runC03(s *sim) {
 		topic := topicOf(it.a(0))
 		data := w.mkData(20)
 		own[string(data)] = true
+		if it.a(2) != 0 {
+			// a key with the peer ID of somebody else: whatever Publish answers, nothing that fails
+			// the receiver's rule may be delivered or forwarded (judge, below)
+			other := authors[([]int{0, 3, 5}[int(it.a(1))%3]+int(it.a(2)))%len(authors)]
+			if other.id != au.id {
+				s.probe("c03_per_publish_key_with_foreign_peer_id")
+				s.do("Publish(WithSecretKeyAndPeerId "+au.kind+" key, foreign peer ID) "+topic, func() any {
+					t, err := w.n.topic(topic)
+					if err != nil {
+						return err
+					}
+					return t.Publish(context.Background(), data, WithSecretKeyAndPeerId(au.priv, other.id))
+				})
+				return
+			}
+		}
 		c := s.do("Publish(WithSecretKeyAndPeerId "+au.kind+") "+topic, func() any {
 			t, err := w.n.topic(topic)
 			if err != nil {
